@@ -148,4 +148,14 @@ def run(c, focus="C01"):
             d = vlib.first_diff(ri["lines"], rm["lines"])
             if d:
                 c.mismatch(cid, lines, "line %d: impl=%r model=%r" % d)
+        else:
+            # the real code died in the middle of the script: what it printed must be a prefix of the model's output,
+            # and the model (which never stops on an admissible script) goes on
+            k = len(ri["lines"])
+            d = vlib.first_diff(ri["lines"], rm["lines"][:k])
+            if d:
+                c.mismatch(cid, lines, "line %d: impl=%r model=%r" % d)
+            elif len(rm["lines"]) > k:
+                c.mismatch(cid, lines, "the implementation crashed after %d output lines, the model continues with %r"
+                           % (k, rm["lines"][k]))
     return True
